@@ -14,12 +14,14 @@ import (
 // Read is the standard Reader interface Read() method.
 func (stdin *Stdin) Read(p []byte) (i int, err error) {
 	for {
+		verifYield(stdin, "r.sel")
 		select {
 		case <-stdin.ctx.Done():
 			return 0, io.EOF
 		default:
 		}
 
+		verifYield(stdin, "r.chk")
 		stdin.mutex.Lock()
 		l := len(stdin.buffer)
 		deps := stdin.dependents
@@ -36,6 +38,7 @@ func (stdin *Stdin) Read(p []byte) (i int, err error) {
 		break
 	}
 
+	verifYield(stdin, "r.take")
 	stdin.mutex.Lock()
 
 	if len(p) >= len(stdin.buffer) {
@@ -75,17 +78,20 @@ func (stdin *Stdin) ReadLine(callback func([]byte)) error {
 
 // ReadAll reads everything and dump it into one byte slice.
 func (stdin *Stdin) ReadAll() ([]byte, error) {
+	verifYield(stdin, "ra.max")
 	stdin.mutex.Lock()
 	stdin.max = 0
 	stdin.mutex.Unlock()
 
 	for {
+		verifYield(stdin, "ra.sel")
 		select {
 		case <-stdin.ctx.Done():
 			goto read
 		default:
 		}
 
+		verifYield(stdin, "ra.poll")
 		stdin.mutex.Lock()
 		closed := stdin.dependents < 1
 		stdin.mutex.Unlock()
@@ -97,6 +103,7 @@ func (stdin *Stdin) ReadAll() ([]byte, error) {
 	}
 
 read:
+	verifYield(stdin, "ra.take")
 	stdin.mutex.Lock()
 	stdin.bRead = uint64(len(stdin.buffer))
 	b := stdin.buffer
